@@ -1,5 +1,6 @@
 import Clover.Generated.Facts
 import Clover.Proofs.UnmarshalRename
+import Clover.Proofs.Unmarshal2
 import Clover.Proofs.KindInvariance
 import Clover.Model.GoVal
 import Clover.Proofs.Paths
@@ -192,6 +193,39 @@ theorem set_keeps_dotfree (d : Doc) (h : DotFree d) (n : Bytes) (v : Value) (hv 
 
 example : DotFree [([0x61], .obj [([0x62], .null)]), ([0x63], .bool true)] := by
   simp [DotFree, DotFreeKeys, SortedKeys, dot, OC.lexLt]
+
+/-! ### the repaired renaming (F40): embedded structs, structs inside slices, arrays and maps — `Model/Unmarshal2.lean` -/
+
+/-- on the struct shapes the first model knew, the repaired function is the old one -/
+theorem unmarshal2_conservative (T : RType) (d : Doc) : U2.renameMapKeys (U2.embedOld T) d = renameMapKeys T d :=
+  U2.renameMapKeys_embedOld T d
+
+/-- every element of a **slice or array of structs** is renamed by the element type … -/
+theorem unmarshal_renames_slice_elements (fs : List U2.RField) (hp : U2.Plain fs) (hok : U2.FieldsOK fs) (d : Doc)
+    (hd : U2.DocFits fs d) (g c j : Bytes) (e : Bool) (sub : List U2.RField)
+    (hf : (g, c, j, e, U2.RT.list (.struct sub)) ∈ fs) (xs : List Value)
+    (hx : lookupKey (fromName g c) d = some (.arr xs)) :
+    lookupKey (toName g j) (U2.renameMapKeys (.struct fs) d) = some (.arr (xs.map (U2.renameValue (.struct sub)))) :=
+  U2.renameValue_list fs hp hok d hd g c j e sub hf xs hx
+
+/-- … every value of a **map of structs** likewise … -/
+theorem unmarshal_renames_map_values (fs : List U2.RField) (hp : U2.Plain fs) (hok : U2.FieldsOK fs) (d : Doc)
+    (hd : U2.DocFits fs d) (g c j : Bytes) (e : Bool) (sub : List U2.RField)
+    (hf : (g, c, j, e, U2.RT.map (.struct sub)) ∈ fs) (m : Doc)
+    (hm : lookupKey (fromName g c) d = some (.obj m)) :
+    lookupKey (toName g j) (U2.renameMapKeys (.struct fs) d) =
+      some (.obj (m.map (fun kv => (kv.1, U2.renameValue (.struct sub) kv.2)))) :=
+  U2.renameValue_map fs hp hok d hd g c j e sub hf m hm
+
+/-- … and the fields of an **embedded struct**, flattened into the parent document on the way in, are renamed exactly
+    like direct fields (hypotheses `EmbeddedOK`: distinct names, and no direct field's json name equal to a promoted
+    field's stored name — with such a clash the second pass would move the wrong value, `Proofs/Unmarshal2.lean` has the
+    counterexample). -/
+theorem unmarshal_renames_embedded_fields (pre post es : List U2.RField) (gE cE : Bytes) (d : Doc)
+    (h : U2.EmbeddedOK pre post es gE cE d) (jE : Bytes) (f : U2.RField) (hf : f ∈ es) :
+    lookupKey (U2.RField.read f) (U2.renameMapKeys (.struct (pre ++ (gE, cE, jE, true, U2.RT.struct es) :: post)) d) =
+      (lookupKey (U2.RField.stored f) d).map (U2.renameValue f.2.2.2.2) :=
+  U2.renameMapKeys_embedded h jE f hf
 
 end CV.Props.C18
 
